@@ -255,7 +255,8 @@ contract('Model.reset_cache', file=F, props=['C08', 'C14'], params=dict(self=M),
                                                              C.self.memo[C.old.self.memo.keys.raw(j)].size == 0)))})
 
 contract('Model.reset', file=F, props=['C14'], params=dict(self=M),
-         requires=lambda C: And(wf(C.self), C.self.agent_type_map.wf, C.self.memo.wf, Not(C.self.data_collector.is_null)),
+         # no precondition on data_collector: Model() leaves it None and reset() must still work (fix recorded in known_findings.json)
+         requires=lambda C: And(wf(C.self), C.self.agent_type_map.wf, C.self.memo.wf),
          ensures=lambda C: And(wf(C.self), C.self.agents.len == 0,
                                C.self.next_agent_id == C.old.self.next_agent_id),
          loops={0: cleared_prefix_inv},
